@@ -168,6 +168,15 @@ Section Select.
   | RaisedKey                     (* KeyError: a preference-list name that is not registered, or a missing upgrade function *)
   | RaisedAssert.                 (* AssertionError *)
 
+  (* an engine of the right mode that does not qualify is added to the error report: the report evaluates
+     EngineClass.supports(ProblemKind({f}, version=problem_kind.version)) for every feature f of the request, which raises
+     KeyError exactly when the comparison needs an upgrade function that does not exist *)
+  Definition report_raises (e : engine) (r : request) : bool :=
+    is_mode e (r_mode r)
+    && existsb (fun f => match supports e {| k_feats := mask_of [f]; k_ver := Some (version T (r_kind r)) |} with
+                         | Ok _ => false | _ => true end)
+               (elements (k_feats (r_kind r))).
+
   (* the loop `for name in self._preference_list` of _get_engine_class *)
   Fixpoint first_satisfying (reg : registry) (prefs : list string) (r : request) : selection :=
     match prefs with
@@ -178,7 +187,7 @@ Section Select.
         | Some e =>
             match satisfies_conditions e r with
             | Ok true => Found name e
-            | Ok false => first_satisfying reg prefs' r
+            | Ok false => if report_raises e r then RaisedKey else first_satisfying reg prefs' r
             | KeyErr => RaisedKey
             | AssertErr => RaisedAssert
             end
